@@ -3,7 +3,7 @@
    a grid.  Two families of initial states:
      "op"    an operation (accelerator, kind, precision, scaling, LUT, kernel extent, stride, upscaling,
              IFM depth, weight traversal, one-row OFM); successor states place every legal block of a
-             block grid with try_block_config's arithmetic (Fit / NoFit);
+             block grid with try_block_config's arithmetic (PlaceBlock: phase "fit" or "nofit");
      "shape" an OFM shape; successor states are the candidates enumerated by find_block_config
              (FindCand) and by api.npu_find_block_configs (QueryCand, then filtered by Try). *)
 EXTENDS ShramAlloc
@@ -44,6 +44,9 @@ ShapeCases == { [Base(a, "conv") EXCEPT !.fam = "shape", !.up = up, !.ofm = [h |
 BlockGrid(a) == LET ub == S!UBlock(a) IN
     { [h |-> ub.h * i, w |-> ub.w * j, d |-> ub.d * k] : i \in GridH, j \in GridW, k \in GridD }
 
+(* the driver mirrors Cases to realise every point as a public-API operation; it checks its count against this line *)
+ASSUME PrintT(<<"LATTICE", Cardinality(Cases), Cardinality(ShapeCases)>>)
+
 VARIABLES phase, c, blk, lay
 vars == <<phase, c, blk, lay>>
 NoBlk == [h |-> 0, w |-> 0, d |-> 0]
@@ -51,19 +54,19 @@ Init == /\ c \in Cases \cup ShapeCases
         /\ phase = c.fam /\ blk = NoBlk /\ lay = NoLayout
 (* one (operation, block) point: what try_block_config answers *)
 Grid == { x \in BlockGrid(c.accel) : S!BlockOK(c.accel, x) }
-Fit   == /\ phase = "op"
-         /\ \E b \in Grid : LET L == Try(c, b) IN L # NoLayout /\ blk' = b /\ lay' = L
-         /\ phase' = "placed" /\ UNCHANGED c
-NoFit == /\ phase = "op"
-         /\ \E b \in Grid : LET L == Try(c, b) IN L = NoLayout /\ blk' = b /\ lay' = L
-         /\ phase' = "placed" /\ UNCHANGED c
+PlaceBlock == /\ phase = "op"
+              /\ \E b \in Grid : LET L == Try(c, b) IN blk' = b /\ lay' = L /\ phase' = IF L = NoLayout THEN "nofit" ELSE "fit"
+         /\ UNCHANGED c
+(* vacuity: some point of the lattice fits and some does not (evaluated once, at start-up) *)
+ASSUME \E x \in Cases : \E b \in BlockGrid(x.accel) : S!BlockOK(x.accel, b) /\ Try(x, b) # NoLayout
+ASSUME \E x \in Cases : \E b \in BlockGrid(x.accel) : S!BlockOK(x.accel, b) /\ Try(x, b) = NoLayout
 (* one candidate of the two search loops for an OFM shape *)
 FindCand  == /\ phase = "shape" /\ c.up = 0 /\ \E b \in FindCandidates(c.accel, c.ofm) : blk' = b
              /\ phase' = "found" /\ UNCHANGED <<c, lay>>
 QueryCand == /\ phase = "shape" /\ \E b \in QueryCandidates(c.accel, c.ofm, c.up, TRUE) \cup QueryCandidates(c.accel, c.ofm, c.up, FALSE) :
                     blk' = b /\ lay' = Try(c, b)
              /\ phase' = "queried" /\ UNCHANGED c
-Next == Fit \/ NoFit \/ FindCand \/ QueryCand
+Next == PlaceBlock \/ FindCand \/ QueryCand
 Spec == Init /\ [][Next]_vars
 
 (* requirement-side descriptor of (c, blk): accumulator width is the one Shram expects (A-SH6) *)
@@ -72,10 +75,12 @@ OpOf == [accel |-> c.accel, kind |-> c.kind, bits |-> c.bits, accbits |-> S!Expe
          part |-> c.part, ofm_h |-> c.ofm_h, binary |-> (c.kind = "ew" /\ ~c.scalar), bc |-> <<FALSE, FALSE, FALSE>>, blk |-> blk]
 
 (* ---- properties ---- *)
-LayoutValid == (phase \in {"placed", "queried"} /\ lay # NoLayout) => S!Valid(OpOf, lay)
+LayoutValid == (phase \in {"fit", "queried"} /\ lay # NoLayout) =>
+                   /\ S!BlockOK(c.accel, blk) /\ S!Ordered(OpOf, lay) /\ S!LutReserved(OpOf, lay)
+                   /\ S!IfmFits(OpOf, lay) /\ S!Ifm2Fits(OpOf, lay) /\ S!AccFits(OpOf, lay)
 (* every block find_block_config can return, and every block the query can offer, is a legal block *)
 CandidatesLegal == /\ phase = "found" => S!BlockOK(c.accel, blk)
                    /\ (phase = "queried" /\ lay # NoLayout) => S!BlockOK(c.accel, blk)
 (* negative control: with Tighten = 1 this must fail - the layouts are tight, the antecedent is reachable *)
-Slack == (phase = "placed" /\ lay # NoLayout /\ c.kind # "ew") => lay.lut_start - lay.ab_start >= S!AccNeed(OpOf) + Tighten
+Slack == (phase = "fit" /\ c.kind # "ew") => lay.lut_start - lay.ab_start >= S!AccNeed(OpOf) + Tighten
 =============================================================================
